@@ -39,6 +39,11 @@ func replayObligation(P *Prog, dir, id string, o *oblResult) (string, bool) {
 }
 
 func tryCounterexample(P *Prog, id string, o *oblResult) (map[string]interface{}, bool) {
+	if os.Getenv("GOVC_CHILD") != "" {
+		// a run of the thorough tier's own corpora: only the verdict (exit status) is used, the witness
+		// search (go test on the scratch copy, up to a minute per entry) would be thrown away
+		return nil, false
+	}
 	data, err := os.ReadFile(filepath.Join(verifRoot, "replays", "oracle", "index.json"))
 	if err != nil {
 		return nil, false
